@@ -21,7 +21,7 @@ Structure of the proof of `generate_reqOK` (helper files `QProofs/Pipe*.lean`):
 * `PipeAbs`, `PipeNameMap`: `absReqs` replaces every parameter by the index of the first
   `Param.eqv`-equal entry of the final table; `nameMap` under unique names; transfer
   `EntryOK → GenInstsOK.ReqOK` (`reqOK_of_entryOK`).
-The slot tables `indexSlots`, `biasSlot`, `dataSlot`, `slotRole`, `passThroughOps`, `OpNamed` used in
+The slot tables `indexSlots`, `biasSlot`, `dataSlot`, `slotRole`, `OpNamed` used in
 `NF` are defined (and documented) in `QProofs/PipeNF.lean`.
 -/
 open Graph Mat Cfg Pipeline PipeNF
@@ -35,7 +35,13 @@ namespace PipelineWF
     API-accepted recipes; `OpNamed m op k` says that operator `op` has the quantizer's name `k`, and
     `slotRole k i ∈ {0 = regular, 1 = index/shape/axis operand, 2 = bias}` is the role the
     registered materialisation of `k` gives to operand position `i` (tables in `QProofs/PipeNF.lean`,
-    restating the position lists hard-coded in `Mat.materializeOp`). -/
+    restating the position lists hard-coded in `Mat.materializeOp`).
+
+    No hypothesis on the data operand of the pass-through operators (RESHAPE, TRANSPOSE,
+    AVERAGE_POOL_2D, STRIDED_SLICE, SPLIT; same-as-input constraint) is needed: `Mat.standardOp`
+    hands the operand's parameters to the results *without* its quantized values
+    (`Pipe.stripData`, `Pipe.stripData_nodata`), so `ReqOK.dataConst` holds for the results even
+    when the data operand is a constant. -/
 structure NF (env : Env) (st : Recipe.State) : Prop where
   wf : WF.modelOK env.model = true
   tagged : Skeleton.origTagged env.model = true
@@ -69,18 +75,9 @@ structure NF (env : Env) (st : Recipe.State) : Prop where
       `biasFor` addresses the request list -- which skips `-1` slots -- by the raw bias position. -/
   mandatory : ∀ sg ∈ env.model.subgraphs, ∀ op ∈ sg.ops, ∀ k, OpNamed env.model op k →
     ∀ b, biasSlot k = some b → (∀ i < b, op.inputs[i]? ≠ some (-1)) ∧ op.outputs[0]? ≠ some (-1)
-  /-- **pass-through operators have a non-constant data operand** (RESHAPE, TRANSPOSE,
-      AVERAGE_POOL_2D, STRIDED_SLICE, SPLIT: the converter folds them on constants).  Needed for
-      `ReqOK.dataConst`: with the same-as-input constraint the results take over the parameter
-      object of the data operand; for a constant operand that object carries quantized data, and a
-      request with data on the (non-constant) result would make `quantize_tensor` write that data
-      into the result's buffer. -/
-  passThrough : ∀ sg ∈ env.model.subgraphs, ∀ op ∈ sg.ops, ∀ k, OpNamed env.model op k →
-    k ∈ passThroughOps → ∀ (i : Nat) a, op.inputs[i]? = some a → a ≠ -1 → i ∉ indexSlots k →
-      isConst env.model sg a = false
 
 theorem NF.genHyp {env : Env} {st : Recipe.State} (h : NF env st) : Pipe.GenHyp env st :=
-  ⟨h.wf, h.noBlockwise, h.inputsNotConst, h.slotRoles, h.constWeight, h.mandatory, h.passThrough⟩
+  ⟨h.wf, h.noBlockwise, h.inputsNotConst, h.slotRoles, h.constWeight, h.mandatory⟩
 
 /-- a successful run of `generate` implies that all tensor names of the model are distinct -/
 theorem generate_names (rx : String → String → Bool) (env : Env) (st : Recipe.State) (qsvs : Option Qsvs)
